@@ -23,6 +23,29 @@ type c14Case struct {
 // short ids so that as many recursion steps as possible fit under the length bound
 var c14Pool = []string{"MIT", "ISC", "Zed", "X11", "Vim", "W3C", "TCL", "NTP", "LicenseRef-a", "DocumentRef-d:LicenseRef-b"}
 
+// a second leaf pool: early versions of families the range table covers, measured against allowed lists
+// of the SAME families (later versions that do not reach back: nothing matches although every leaf
+// finds its family; and 1.0+ entries: everything matches through the range comparison)
+var c14FamPool = []string{"GPL-2.0-only", "LGPL-2.1-only", "GPL-1.0-only", "AGPL-1.0-only", "LGPL-2.0-only", "Apache-1.1", "GFDL-1.1-only", "Apache-1.0"}
+var c14FamLater = []string{"MIT", "GPL-3.0-or-later", "LGPL-3.0-or-later", "AGPL-3.0-or-later", "Apache-2.0", "GFDL-1.3-or-later"}
+var c14FamEarlierPlus = []string{"GPL-1.0+", "LGPL-2.0+", "AGPL-1.0+", "Apache-1.0+", "GFDL-1.1+"}
+
+const c14FamPrefix = "same-family-leaves|"
+
+// c14FamAllowed: the allowed list of a same-family context for one of the two Satisfies functions.
+func c14FamAllowed(family, fn string) []string {
+	if !strings.HasPrefix(family, c14FamPrefix) {
+		return nil
+	}
+	switch fn {
+	case "Satisfies/none-allowed":
+		return c14FamLater
+	case "Satisfies/all-allowed":
+		return c14FamEarlierPlus
+	}
+	return nil
+}
+
 // c14Context describes one linear recursion context: a tree shape with operators and a hole.
 type c14Context struct {
 	t    *Tree
@@ -72,9 +95,13 @@ func ctxRender(t *Tree, hole int, inner string, next func() string) string {
 
 // c14Input builds member n of a family: expression + allowed list. ok=false when the family has no such member.
 func c14Input(family string, n int, ctxs map[string]c14Context) (expr string, allowed []string, ok bool) {
-	if cx, isCtx := ctxs[family]; isCtx {
+	pool := c14Pool
+	if strings.HasPrefix(family, c14FamPrefix) {
+		pool = c14FamPool
+	}
+	if cx, isCtx := ctxs[strings.TrimPrefix(family, c14FamPrefix)]; isCtx {
 		p := 0
-		next := func() string { s := c14Pool[p%len(c14Pool)]; p++; return s }
+		next := func() string { s := pool[p%len(pool)]; p++; return s }
 		e := next()
 		for i := 1; i < n; i++ {
 			e = ctxRender(cx.t, cx.hole, e, next)
@@ -283,10 +310,16 @@ func init() {
 		if !ok {
 			return ""
 		}
+		if fa := c14FamAllowed(cs.Family, cs.Fn); fa != nil {
+			allowed = fa
+		}
 		cur := c14Measure(cs.Fn, expr, allowed)
 		var half c14Cost
 		if cs.N0 >= 2 {
 			e0, a0, _ := c14Input(cs.Family, cs.N0, ctxs)
+			if fa := c14FamAllowed(cs.Family, cs.Fn); fa != nil {
+				a0 = fa
+			}
 			half = c14Measure(cs.Fn, e0, a0)
 		}
 		return c14Judge(cs.Family, cs.N, cs.N0, cs.Fn, cur, half, argLen(expr, allowed))
@@ -295,7 +328,7 @@ func init() {
 		ID:       "C14",
 		Title:    "cost is polynomial in input size",
 		Explorer: "E1 exhaustive enumeration of linear recursion families (every context <= k leaves with a hole) unrolled under a length bound, deterministic allocation monitor on the real code",
-		Rule: "family = a recursion context (tree with <= k leaves, any AND/OR labelling, one leaf marked as hole; e1 = a term, e(n+1) = C[e(n)] with fresh leaves round-robin from 8 licence ids + 2 references) or one of 22 scalar families (parenthesis depth, spaces, long ids, rewrite chains, long / overlapping allowed lists, n terms vs n entries, and 10 families of INVALID input that exercise the error paths); each family is unrolled n = 1,2,3,... (scalar: doubling) while the total argument length stays <= B bytes (B = 2048 quick, 4096 thorough); " +
+		Rule: "family = a recursion context (tree with <= k leaves, any AND/OR labelling, one leaf marked as hole; e1 = a term, e(n+1) = C[e(n)] with fresh leaves round-robin from 8 licence ids + 2 references; and every context once more with leaves from 8 early versions of range-table families against allowed lists of the same families that reach none / all of them) or one of 22 scalar families (parenthesis depth, spaces, long ids, rewrite chains, long / overlapping allowed lists, n terms vs n entries, and 10 families of INVALID input that exercise the error paths); each family is unrolled n = 1,2,3,... (scalar: doubling) while the total argument length stays <= B bytes (B = 2048 quick, 4096 thorough); " +
 			"state = (family, n), 4 transitions (Satisfies with nothing / everything allowed, ExtractLicenses, ValidateLicenses); oracles: completes, TotalAlloc delta < 1 GiB, < 10 s, and alloc(2n) <= 20*alloc(n) (local degree <= 4); non-trivial = states with n >= 4 of families whose context contains both operators",
 		Assumptions: []string{
 			"TotalAlloc/Mallocs deltas of a single-goroutine call are deterministic; the growth law is evaluated on every doubling inside the bound, its continuation beyond the bound is an extrapolation",
@@ -387,14 +420,21 @@ func c14Run(c *Ctx) {
 	}
 	ctxs, names := c14CtxMap(k)
 	fams := append(append([]string{}, names...), c14Scalar...)
-	c.Bound("families", map[string]any{"context_max_leaves": k, "contexts": len(names), "scalar": c14Scalar, "max_total_argument_bytes": B, "functions": c14Fns})
+	for _, n := range names {
+		fams = append(fams, c14FamPrefix+n)
+	}
+	c.Bound("families", map[string]any{"context_max_leaves": k, "contexts": len(names), "same_family_leaf_pool": c14FamPool, "same_family_allowed": map[string]any{"Satisfies/none-allowed": c14FamLater, "Satisfies/all-allowed": c14FamEarlierPlus}, "scalar": c14Scalar, "max_total_argument_bytes": B, "functions": c14Fns})
 	for fi, fam := range fams {
 		if !c.Mine(int64(fi)) {
 			continue
 		}
-		_, isCtx := ctxs[fam]
+		_, isCtx := ctxs[strings.TrimPrefix(fam, c14FamPrefix)]
+		famLeaves := strings.HasPrefix(fam, c14FamPrefix)
 		both := strings.Contains(fam, "AND") && strings.Contains(fam, "OR")
 		for _, fn := range c14Fns {
+			if famLeaves && !strings.HasPrefix(fn, "Satisfies") {
+				continue // the allowed list plays no part in the other two functions
+			}
 			costs := map[int]c14Cost{}
 			stopped := false
 			for n := 1; !stopped; {
@@ -407,6 +447,9 @@ func c14Run(c *Ctx) {
 				}
 				if fn != "ValidateLicenses" && strings.HasPrefix(fn, "Satisfies") && allowed != nil && fn == "Satisfies/all-allowed" {
 					break // families with their own allowed list are measured once
+				}
+				if fa := c14FamAllowed(fam, fn); fa != nil {
+					allowed = fa
 				}
 				desc := fmt.Sprintf("%s | family %s n=%d", fn, fam, n)
 				if !c.Begin(desc) {
